@@ -386,3 +386,43 @@ class get_spine_ids:
 
     def post_ids_of_the_headers(result, rest):
         return result == [n.token.spine_id for n in rest if isinstance(n.token, HeaderToken)]
+
+
+# ------------------------------------------------------------------------------------------------ the unique listing, as texts
+A_UNIQUE = ('Document.get_unique_tokens(filter) is a function of the document and the filter (what it lists: bounded contract '
+            'token_queries_agree; first occurrences depend on what was seen before, outside the per-element rules)')
+
+
+@contract(DOC + 'Document.get_unique_tokens', props=['C17'], name='get_unique_tokens_summary', local=True, assumed=A_UNIQUE)
+class get_unique_tokens_summary:
+    def model(self, filter_by_categories):
+        ghost_set('unique.calls', ghost_get('unique.calls', 0) + 1)
+        ghost_set('unique.filter', filter_by_categories)
+        return ghost_get('unique.answer')
+
+
+@contract(DOC + 'Document.get_unique_token_encodings', props=['C17'])
+class get_unique_token_encodings:
+    """C17 (the queries agree with each other): the unique listing of texts is the text of every token of the unique token listing for
+    the same filter, in order -- one query, nothing dropped, nothing added."""
+    uses = ('get_unique_tokens_summary',)
+    assumes = (A_UNIQUE,)
+
+    def inputs(g):
+        f = g.choice('filter', ['none', 'set'])
+        cats = None if f == 'none' else g.enum_set('cats', TokenCategory)
+        if g.symbolic:
+            doc, rest = mk_listed_document(g)
+            answer = g.seq('unique', lambda e: e.new(SimpleToken, {'encoding': e.str_sym('encoding'), 'category': e.enum('category', TokenCategory), 'hidden': False}, None))
+            ghost_set('unique.answer', answer)
+        else:
+            doc, rest = native_listed_document(g)
+            answer = None
+        return {'self': doc, 'filter_by_categories': cats, '_answer': answer}
+
+    modifies = ()
+
+    def post_texts_of_the_unique_tokens(result, self, filter_by_categories, answer):
+        if not symbolic_run():
+            return result == [t.encoding for t in self.get_unique_tokens(filter_by_categories)]
+        return conj(ghost_get('unique.calls', 0) == 1, ghost_get('unique.filter') is filter_by_categories, result == [t.encoding for t in answer])
